@@ -194,6 +194,9 @@ structure Config where
   sigSnapshot : Bool
   /-- `on_sigchld` walks a snapshot of `t->processes` and skips entries no longer linked. -/
   procSnapshot : Bool
+  /-- `tickit_watch_cancel` of a deferred callback that is not in `t->laters` (its batch has been detached by the
+      running iteration) notifies it and marks it `WATCH_NONE`; `tickit_evloop_invoke_timers` skips marked entries. -/
+  laterCancelMarks : Bool := false
 deriving DecidableEq, Repr, Inhabited
 
 def Config.shipped : Config :=
@@ -201,7 +204,7 @@ def Config.shipped : Config :=
     invokeTypeSaved := false, sigSnapshot := false, procSnapshot := false }
 def Config.repaired : Config :=
   { ioFlagMask := 6, timersPop := true, errnoSaved := true, pendingInit := true, reventsCleared := true,
-    invokeTypeSaved := true, sigSnapshot := true, procSnapshot := true }
+    invokeTypeSaved := true, sigSnapshot := true, procSnapshot := true, laterCancelMarks := true }
 
 /-- One entry of `pollfds[]`/`pollwatches[]`.  `revents = none`: never written (uninitialised). -/
 structure PollSlot where
@@ -533,6 +536,12 @@ def cancelFound (st : St) (a : Nat) (w : Watch) (l : List Nat) : St :=
   cancelRest ((cancelHook (cancelNotify (setListOf st w.type (l.erase a)) a w) w.type w.evi).free a)
     ((l.dropWhile (· ≠ a)).drop 1)
 
+/-- The repaired tail of `tickit_watch_cancel`: a deferred callback that was not found in `t->laters` belongs to the
+    batch the running iteration has detached; the loop still owns it.
+    `if(watch->flags & UNBIND) (*watch->fn)(t, UNBIND, …); watch->type = WATCH_NONE;` -/
+def cancelDetached (st : St) (a : Nat) : St :=
+  (cancelNotify st a (st.getW a)).setW a { (cancelNotify st a (st.getW a)).getW a with type := .none }
+
 /-- `tickit_watch_cancel` (lines 701–770).  The loop reads `->next` of every node of the list the
     watch's type selects (also after it has found the watch). -/
 def watchCancel (st : St) (a : Nat) : St :=
@@ -540,7 +549,8 @@ def watchCancel (st : St) (a : Nat) : St :=
   else if !st.live a then st.fail .cancelType
   else if (st.getW a).type = .none then st
   else if !st.allLive ((listOf st (st.getW a).type).takeWhile (· ≠ a)) then st.fail .cancelWalk
-  else if !(listOf st (st.getW a).type).contains a then st
+  else if !(listOf st (st.getW a).type).contains a then
+    (if st.cfg.laterCancelMarks = true ∧ (st.getW a).type = .later then cancelDetached st a else st)
   else cancelFound st a (st.getW a) (listOf st (st.getW a).type)
 
 /-! ### the harness's callback: behaviour tables -/
@@ -752,16 +762,24 @@ def laterCb (st : St) (a : Nat) : St :=
   else if (st.getW a).slot = -4 then processNotify st a
   else st
 
+/-- The repaired loop, before it invokes an entry: `later->flags &= ~TICKIT_BIND_UNBIND;` (the invocation is the
+    unbind notification: cancelling the entry from inside its own callback must not give it another one). -/
+def laterPre (st : St) (a : Nat) : St :=
+  if st.cfg.laterCancelMarks then st.setW a { st.getW a with flags := (st.getW a).flags - ((st.getW a).flags &&& BIND_UNBIND) }
+  else st
+
 /-- The `while(later)` loop over the detached queue (lines 823–829).  Returns the state and the deferred
-    callbacks it invoked, in order (read only by the theorems of C17). -/
+    callbacks it invoked, in order (read only by the theorems of C17).  Repaired: an entry marked `WATCH_NONE`
+    (cancelled by an earlier callback of this iteration) is freed without being invoked. -/
 def laterLoopT (st : St) : List Nat → St × List Nat
   | [] => (st, [])
   | a :: rest =>
     if !st.isOk then (st, [])
     else if !st.live a then (st.fail .laterLoopThis, [])
-    else if !(laterCb st a).isOk then (laterCb st a, [a])
-    else if !(laterCb st a).live a then ((laterCb st a).fail .laterLoopThis, [a])
-    else ((laterLoopT ((laterCb st a).free a) rest).1, a :: (laterLoopT ((laterCb st a).free a) rest).2)
+    else if st.cfg.laterCancelMarks = true ∧ (st.getW a).type ≠ .later then laterLoopT (st.free a) rest
+    else if !(laterCb (laterPre st a) a).isOk then (laterCb (laterPre st a) a, [a])
+    else if !(laterCb (laterPre st a) a).live a then ((laterCb (laterPre st a) a).fail .laterLoopThis, [a])
+    else ((laterLoopT ((laterCb (laterPre st a) a).free a) rest).1, a :: (laterLoopT ((laterCb (laterPre st a) a).free a) rest).2)
 
 def laterLoop (st : St) (l : List Nat) : St := (laterLoopT st l).1
 
